@@ -153,6 +153,10 @@ class IntrospectablePass(object):
         if typeval.target_fundamental:
             if typeval.is_equiv(ast.TYPE_VALIST):
                 return False
+            # A variable argument list has no GIR type, also when an
+            # annotation wrapped it into a container
+            elif typeval.target_fundamental == '<varargs>':
+                return False
             # These are not introspectable pending us adding
             # larger type tags to the typelib (in theory these could
             # be 128 bit or larger)
